@@ -465,7 +465,7 @@ func gen(t *rapid.T) Case {
 			RelFirst: rapid.Bool().Draw(t, "relfirst"), ByData: rapid.Bool().Draw(t, "bydata"), KindIdx: rapid.IntRange(0, 2).Draw(t, "kind")}}
 	}
 	if rapid.Bool().Draw(t, "allow") {
-		lay := fsgen.Generate(t, fsgen.Cfg{Absolute: rapid.Bool().Draw(t, "abs"), NoExtension: rapid.IntRange(0, 2).Draw(t, "noext") == 0, NullEntries: rapid.IntRange(0, 3).Draw(t, "nullentries") == 0})
+		lay := fsgen.Generate(t, fsgen.Cfg{Absolute: rapid.Bool().Draw(t, "abs"), NoExtension: rapid.IntRange(0, 2).Draw(t, "noext") == 0, NullEntries: rapid.IntRange(0, 3).Draw(t, "nullentries") == 0, CallbackPathRefs: rapid.Bool().Draw(t, "cbpathrefs")})
 		return Case{Layout: lay, Root: lay.Root, Entry: rapid.SampledFrom([]string{"datawithpath", "uri", "file"}).Draw(t, "entry"), Allow: true}
 	}
 	raw := docgen.Conforming(t, docgen.Cfg{Unusual: rapid.Bool().Draw(t, "unusual"), Examples: true, MaxPaths: 2})
